@@ -225,7 +225,7 @@ def step (s : St α) (op : List String) (impl : Option (List String)) : St α ×
     | some k, some j =>
       let isCopy := match op with | "mr.copy" :: _ => true | _ => false
       let m := if isCopy then RangeCollection.copy s.mr[k]!
-               else (if k == j then s.mr[j]! else RangeCollection.assign s.mr[j]! s.mr[k]!)
+               else RangeCollection.assign (k == j) s.mr[j]! s.mr[k]!
       let sp := s.spec[k]!
       ({ s with mr := s.mr.set! j m, spec := s.spec.set! j sp, implMr := s.implMr.set! j (implList sc impl m) },
         showColl sc m, mrVerdict (α := α) sc impl sp none)
@@ -282,7 +282,7 @@ def step (s : St α) (op : List String) (impl : Option (List String)) : St α ×
     | some k, some j =>
       let isCopy := match op with | "rs.copy" :: _ => true | _ => false
       let m := if isCopy then RangeCollection.copy s.rs[k]!
-               else (if k == j then s.rs[j]! else RangeCollection.assign s.rs[j]! s.rs[k]!)
+               else RangeCollection.assign (k == j) s.rs[j]! s.rs[k]!
       let w := s.rsSpec[k]!
       ({ s with rs := s.rs.set! j m, rsSpec := s.rsSpec.set! j w }, showColl sc m, rsVerdict sc impl w)
     | _, _ => (s, "bad-op", "-")
